@@ -8,25 +8,62 @@ dispatcher d: 0 = Dispatch::none(), c+1 = collector c; interest 0/1/2; level / f
 """
 import json
 import os
+import sys
 
 import vlib
 
-REQUIRES = ("From Coq Require Import NArith List.\nImport ListNotations.\n"
-            "From TV Require Import Dispatch.Model.\nLocal Open Scope N_scope.")
+REQUIRES = ("From Coq Require Import NArith List String.\nImport ListNotations.\n"
+            "From TV Require Import Dispatch.Model Dispatch.Shape Dispatch.Source.\nLocal Open Scope N_scope.")
 KIND_NUM = {"span": 0, "event": 1, "hint": 2}
 
 
-def f1_fixed(ctx=None):
-    """Which variant of dispatch.rs the model mirrors: env VERIF_F1=fixed|unfixed overrides driver/props/F1_state.txt."""
-    v = os.environ.get("VERIF_F1")
-    if not v:
-        try:
-            v = vlib.read(os.path.join(vlib.VERIF, "driver", "props", "F1_state.txt")).strip()
-        except FileNotFoundError:
-            v = "unfixed"
-    if v not in ("fixed", "unfixed"):
-        raise RuntimeError("F1 state must be 'fixed' or 'unfixed', got %r" % v)
-    return v == "fixed"
+def translate(ctx, rep, guard_too=True):
+    """Run translators/dispatch_shape.py on ctx.repo (every run), write coq/gen/Gen_dispatch.v, record the tie
+    (C02: dispatch.rs's default machinery only; C01, whose model also contains the macro guard and callsite.rs: everything).
+    Returns (dispatch readings, guard readings).  d["fx"]: True = dispatch.rs never populates the thread-local from the
+    global default (F1 repaired), False = the shape from before fix aa353f7, None = mixture / unrecognised (fail closed:
+    the tie is broken and Properties/C02.v no longer compiles)."""
+    tdir = os.path.join(vlib.VERIF, "translators")
+    if tdir not in sys.path:
+        sys.path.insert(0, tdir)
+    import dispatch_shape
+    d, g, unrec_d, unrec_g = dispatch_shape.shapes(ctx.repo)
+    text, _ = dispatch_shape.main(ctx.repo, None)
+    vlib.gen_if_changed(os.path.join(vlib.COQ, "gen", "Gen_dispatch.v"), text)
+    rep.tie("translator:Gen_dispatch:dispatch.rs", not unrec_d, "; ".join(unrec_d[:4]), unrec_d[:1] or None)
+    if guard_too:
+        rep.tie("translator:Gen_dispatch:callsite.rs,collect.rs,lib.rs,macros.rs,level_filters.rs", not unrec_g, "; ".join(unrec_g[:4]), unrec_g[:1] or None)
+    d["unrec"], g["unrec"] = len(unrec_d), len(unrec_g)
+    ctx.log("dispatch.rs variant read off the source: %s" % {True: "repaired (thread-local never caches the global default)",
+                                                             False: "as before fix aa353f7 (F1 shape)", None: "UNRECOGNISED"}[d["fx"]])
+    return d, g
+
+
+def model_fx(d):
+    """The variant the model is run with = Source.src_fx (an unrecognised mixture counts as unrepaired)."""
+    return bool(d["fx"])
+
+
+def static_max_from_table(g, features, release=False):
+    """Python mirror of Shape.static_max_of (the Coq side pins the two harness builds in C01_source_static_max)."""
+    for f, rel_only, lvl in g["static"]:
+        if rel_only == release and f in features:
+            return lvl
+    return 5
+
+
+def check_source_summary(ctx, rep, d, g):
+    """Coq's view of the generated file == Python's reading (guards against the two drifting apart)."""
+    try:
+        res = vlib.coq_eval(ctx, REQUIRES, [("summary", "src_summary"), ("smax", '[src_static_max []; src_static_max ["max_level_info"%string]]')],
+                            tag="source_summary", shards=1)
+        got = res["summary"]     # [src_fx, dispatch_shape_ok, guard_shape_ok, #unrecognised dispatch.rs, #unrecognised elsewhere]
+        ok = got[0] == (1 if model_fx(d) else 0) and got[3:] == [d["unrec"], g["unrec"]] and \
+            (d["unrec"] > 0 or got[1] == 1) and (g["unrec"] > 0 or got[2] == 1) and \
+            res["smax"] == [static_max_from_table(g, []), static_max_from_table(g, ["max_level_info"])]
+        rep.tie("translator:python-reading==coq-reading", ok, "src_summary=%s src_static_max=%s" % (got, res["smax"]), None if ok else {"coq": res})
+    except Exception as ex:
+        rep.tie("translator:python-reading==coq-reading", False, str(ex)[:300])
 
 
 # ------------------------------------------------------------------------------------------------
@@ -134,16 +171,19 @@ def coq_case(pool, case):
 # ------------------------------------------------------------------------------------------------
 # implementation side
 
-def build(ctx, rep, release=False, features=None):
-    ok, paths, log = vlib.cargo_build(ctx, "dispatch", ["h_dispatch"], release=release, features=features)
+def build(ctx, rep, release=False, capped=False):
+    """Default build: harness/dispatch (STATIC_MAX_LEVEL = TRACE).  capped=True: harness/dispatch_info, the same source
+    built against tracing with `max_level_info` (STATIC_MAX_LEVEL = INFO in debug builds) — its own package, so both stay cached."""
+    pkg, exe = ("dispatch_info", "h_dispatch_info") if capped else ("dispatch", "h_dispatch")
+    ok, paths, log = vlib.cargo_build(ctx, pkg, [exe], release=release)
     if not ok:
-        rep.tie("build:h_dispatch", False, vlib.last_error(log))
+        rep.tie("build:" + exe, False, vlib.last_error(log))
         return None, None
-    rc, out = vlib.run_bin(paths["h_dispatch"], ["--pool"], timeout=60)
+    rc, out = vlib.run_bin(paths[exe], ["--pool"], timeout=60)
     rows = [json.loads(l) for l in out.splitlines() if l.startswith("{")]
     pool = [r for r in rows if "i" in r]
     smax = [r for r in rows if "static_max" in r][0]["static_max"]
-    return paths["h_dispatch"], {"pool": pool, "static_max": smax}
+    return paths[exe], {"pool": pool, "static_max": smax, "features": ["max_level_info"] if capped else [], "release": release}
 
 
 def run_impl(ctx, binpath, cases, tag="batch"):
@@ -179,7 +219,8 @@ def run_model(ctx, pool, smax, cases, fx, what=("run",), tag="cases", chunk=40):
         lits = "; ".join(coq_case(pool, cases[c]) for c in part)
         fields = []
         if "run" in what:
-            fields.append("run_case %s %d (fst c) (snd c)" % ("true" if fx else "false", smax))
+            # the variant is Source.src_fx, i.e. what the translator read on this run (fx is only cross-checked, see check_source_summary)
+            fields.append("src_run_case %d (fst c) (snd c)" % smax)
         if "spec" in what:
             fields.append("spec_case (snd c)")
         if "f1" in what:
